@@ -1,6 +1,7 @@
 package props
 
 import (
+	"encoding/hex"
 	"fmt"
 	"math/rand"
 	"strings"
@@ -31,7 +32,14 @@ func cfgShape(c lockCfg) string {
 			lt = "past"
 		}
 	}
-	return fmt.Sprintf("n_sigs=%d;pubkeys=%d;locktime=%s;refund=%d", c.NSigs, len(c.Pubkeys), lt, len(c.Refund))
+	sp := ""
+	if badHash(c) {
+		sp = ";hash=malformed"
+	}
+	if c.Spelling != 0 {
+		sp += fmt.Sprintf(";spelling=%d", c.Spelling%nSpellings)
+	}
+	return fmt.Sprintf("n_sigs=%d;pubkeys=%d;locktime=%s;refund=%d%s", c.NSigs, len(c.Pubkeys), lt, len(c.Refund), sp)
 }
 
 // verifyFn calls the repository's verifier for the kind.
@@ -53,7 +61,29 @@ func lockVerify(kind string, p cashu.Proof) (accepted bool, detail string) {
 
 // helperSupported: configurations on which the library's own signing helpers are
 // meant to produce a sufficient witness with one key.
+// needSigs: signatures a condition demands (key lock: at least one; hash lock: only with a threshold).
+func needSigs(c lockCfg) int {
+	if c.NSigs > 0 {
+		return c.NSigs
+	}
+	if c.Kind == "HTLC" {
+		return 0
+	}
+	return 1
+}
+
+func badHash(c lockCfg) bool {
+	if c.Kind != "HTLC" {
+		return false
+	}
+	b, err := hex.DecodeString(c.Data)
+	return err != nil || len(b) != 32
+}
+
 func helperSupported(c lockCfg) (ok bool, signer string) {
+	if badHash(c) {
+		return false, "" // nothing can open a lock whose value is not a 32-byte hash
+	}
 	if c.expired() && c.Kind == "HTLC" {
 		// AddWitnessHTLC has no refund path: it only adds the preimage and, for
 		// n_sigs = 1, a signature of a listed key
@@ -126,9 +156,9 @@ func htlcPreimages(lk *lockKeys) map[string]string {
 func runLocks(r *core.Run, kind string) {
 	id := map[string]string{"P2PK": "C12", "HTLC": "C13"}[kind]
 	if kind == "P2PK" {
-		r.Rule("function level: every lock configuration (n_sigs absent/0..4 x co-signers 0..3 x locktime absent/past/future x refund keys 0..2 x sigflag absent/SIG_INPUTS/SIG_ALL) x every witness class (none, garbage, empty, wrong message, foreign key, one valid, same signature twice, two different valid signatures of one key, exact threshold, threshold-1, more, refund key, co-signer only, repeated key inside the threshold) through nut11.VerifyP2PKLockedProof vs. an independent evaluator (accepted => authorised; the library helper's own witness must be accepted); mint level: really minted locked proofs swapped / melted alone and among plain proofs at every position, with unsigned / helper-signed / threshold-signed / partly signed outputs; non-trivial = distinct (configuration shape, sigflag, witness class, position, outputs) combinations for which a verdict was compared")
+		r.Rule("function level: every lock configuration (n_sigs absent/0..4 x co-signers 0..3 x locktime absent/past/future x refund keys 0..2 x sigflag absent/SIG_INPUTS/SIG_ALL) x every witness class (none, garbage, empty, wrong message, foreign key, one valid, same signature twice, two different valid signatures of one key, exact threshold, threshold-1, more, refund key, co-signer only, repeated key inside the threshold) through nut11.VerifyP2PKLockedProof vs. an independent evaluator (accepted => authorised; the library helper's own witness must be accepted); mint level: really minted locked proofs swapped / melted alone and among plain proofs at every position, with unsigned / helper-signed / threshold-signed / partly signed outputs; wallet level: SendToPubkey with every tag combination of its API, redeemed by the receiver's Wallet.Receive; non-trivial = distinct (configuration shape, sigflag, witness class, position, outputs) combinations for which a verdict was compared")
 	} else {
-		r.Rule("function level: every HTLC configuration (hash well-formed / 62 / 66 chars / non-hex / upper-case x n_sigs absent/0..3 x pubkeys 0..3 x locktime absent/past/future x refund 0..2 x sigflag) x preimage (right / wrong / non-hex / empty / odd length / upper-case) x signature witness classes through nut14.VerifyHTLCProof vs. an independent evaluator (accepted => authorised); the witnesses produced by AddWitnessHTLC / AddWitnessHTLCToOutputs must be accepted; mint level: really minted hash-locked proofs through Mint.Swap with unsigned / helper-made / hand-made output witnesses; non-trivial = distinct (configuration shape, sigflag, hash class, preimage class, witness class, position, outputs) combinations compared")
+		r.Rule("function level: every HTLC configuration (hash well-formed / 62 / 66 chars / non-hex / upper-case x n_sigs absent/0..3 x pubkeys 0..3 x locktime absent/past/future x refund 0..2 x sigflag) x preimage (right / wrong / non-hex / empty / odd length / upper-case) x signature witness classes through nut14.VerifyHTLCProof vs. an independent evaluator (accepted => authorised); the witnesses produced by AddWitnessHTLC / AddWitnessHTLCToOutputs must be accepted; mint level: really minted hash-locked proofs through Mint.Swap with unsigned / helper-made / hand-made output witnesses; wallet level: HTLCLockedProofs with every tag combination of its API, redeemed by Wallet.ReceiveHTLC (right preimage accepted, wrong one refused); non-trivial = distinct (configuration shape, sigflag, hash class, preimage class, witness class, position, outputs) combinations compared")
 	}
 	r.Assume("lock times are 10^6 s away from the present; lists naming one key twice are not generated; over-rejection outside the helpers' canonical witnesses is an observation, not a violation")
 	reps := pick(r, 1, 12)
@@ -143,6 +173,9 @@ func runLocks(r *core.Run, kind string) {
 	}
 	wg.Wait()
 	lockMintLevel(r, kind, id)
+	if r.Violations() < 10 {
+		lockWalletLevel(r, kind)
+	}
 }
 
 func lockFunctionLevel(r *core.Run, kind string, rep int) {
@@ -166,6 +199,9 @@ func lockFunctionLevel(r *core.Run, kind string, rep int) {
 			}
 			if ci%2 == 1 {
 				c.TagOrder = int64(1 + rng.Intn(1000)) // tag order carries no meaning
+			}
+			if ci%3 == 2 {
+				c.Spelling = 1 + (ci/3)%(nSpellings-1) // nor does the way the JSON text is written
 			}
 			secret := c.Secret()
 			for _, class := range witnessClasses {
@@ -269,6 +305,13 @@ func lockMintLevel(r *core.Run, kind, id string) {
 			if rng.Intn(2) == 0 {
 				c.TagOrder = int64(1 + rng.Intn(1000))
 			}
+			if rng.Intn(3) == 0 {
+				c.Spelling = 1 + rng.Intn(nSpellings-1)
+			}
+			if kind == "HTLC" && rng.Intn(8) == 0 {
+				// a lock value that is not a 32-byte hash: nothing opens it before the locktime
+				c.Data = []string{"zz" + c.Data[2:], c.Data[:63], c.Data[:62], c.Data + "00", c.Data[:31] + "g" + c.Data[32:]}[rng.Intn(5)]
+			}
 			// SIG_ALL cases are the interesting ones at mint level: bias towards them
 			if rng.Intn(2) == 0 {
 				c.Sigflag = "SIG_ALL"
@@ -306,7 +349,7 @@ func lockMintLevel(r *core.Run, kind, id string) {
 				// so that the verdict depends on the outputs alone
 				for tries := 0; tries < 50; tries++ {
 					c = cfgs[rng.Intn(len(cfgs))]
-					need := maxInt(c.NSigs, 1)
+					need := needSigs(c)
 					avail := len(c.Pubkeys)
 					if kind == "P2PK" {
 						avail++
@@ -331,7 +374,7 @@ func lockMintLevel(r *core.Run, kind, id string) {
 						if kind == "P2PK" {
 							avail++
 						}
-						if !c2.expired() && avail >= maxInt(c2.NSigs, 1) && !(kind == "P2PK" && c2.NSigs > 0 && len(c2.Pubkeys) == 0) {
+						if !c2.expired() && avail >= needSigs(c2) && !(kind == "P2PK" && c2.NSigs > 0 && len(c2.Pubkeys) == 0) {
 							c2.Nonce, c2.Sigflag, c2.TagOrder = c.Nonce, "SIG_ALL", c.TagOrder
 							c = c2
 						}
@@ -491,7 +534,7 @@ func lockMintLevel(r *core.Run, kind, id string) {
 			if first != nil {
 				oc = *first
 			}
-			need := maxInt(oc.NSigs, 1)
+			need := needSigs(oc)
 			var pool []*btcec.PrivateKey
 			if kind == "P2PK" {
 				pool = append(pool, lk.Lock)
